@@ -59,7 +59,9 @@ func cps(s string) []int {
 // candidate characters: ASCII letters / digit / space, Latin-1 accents, sharp s, BMP (Cyrillic, CJK), astral
 var base = []rune{'a', 'A', ' '}
 var extra = []rune{'é', 'É', 'ß', 'ж', '日', '😀'}
-var singles = []rune{'b', 'B', 'e', '0', 'z', 'é', 'É', 'ж'}
+// singles include siblings that share their UTF-8 lead bytes with a candidate (é/è/ê: C3 xx, ж/з: D0 xx, 日/旦: E6 97 xx,
+// 😀/😁: F0 9F 98 xx; no character whose code point order differs from its byte order in a single-byte set, e.g. €): two strings may first differ inside a multi-byte character
+var singles = []rune{'b', 'B', 'e', '0', 'z', 'é', 'É', 'ж', 'è', 'ê', 'з', '旦', '😁', '日', '😀'}
 
 func encodable(c sql.Collation, r rune) bool {
 	_, ok := c.CharacterSet.Encoder().Encode([]byte(string(r)))
